@@ -132,10 +132,13 @@ CHECKS = {
                 "decoding arithmetic and Euclidean division with a "
                 "Fourier-Motzkin proven remainder range - every code "
                 "decodes to its pair, so each pairing occurs exactly "
-                "`rounds` times.",
+                "`rounds` times; the orientation follows the round's "
+                "parity except in the last of an odd number of rounds, so "
+                "home/away roles per pairing differ by at most one.",
         "design_ref": "DESIGN.md section 4, C15",
-        "note": "Does NOT decide the home/away balance per pairing and per "
-                "team (alternation arithmetic over rounds). Index safety of "
+        "note": "Does NOT decide the home/away balance per TEAM in the "
+                "special last round (parity argument over the triangular "
+                "enumeration of pairs). Index safety of "
                 "map_games is C13.",
         "technique": "guard-condition extraction + case analysis over "
                      "orderings + linear entailment (Euclidean division "
